@@ -1,0 +1,201 @@
+// Verification hooks (runtime monitoring). Everything in this header is compiled
+// only when BLOCH_VERIF is defined; with the guard off this file is empty and no
+// translation unit changes.
+#pragma once
+
+#ifdef BLOCH_VERIF
+
+#include <atomic>
+#include <cinttypes>
+#include <complex>
+#include <cstdint>
+#include <cstdio>
+#include <cstdlib>
+#include <cstring>
+#include <fstream>
+#include <functional>
+#include <memory>
+#include <random>
+#include <sstream>
+#include <string>
+#include <vector>
+
+namespace bloch::runtime {
+    class QasmSimulator;
+}
+
+namespace bloch::verif {
+
+    struct SimEvent {
+        const char* op = "";
+        int q0 = -1;
+        int q1 = -1;
+        double theta = 0.0;
+        int outcome = -1;  // measure: result; reset: branch taken (if it drew)
+        double p1 = -1.0;  // measure/reset: probability of |1> before the op
+        double r = -1.0;   // draw used (if any)
+        bool drew = false;
+    };
+
+    struct GcEvent {
+        const char* trigger = "";
+        std::uint64_t boundary = 0;
+        std::size_t objects = 0;
+        std::size_t swept = 0;
+        std::size_t held = 0;  // swept objects that still had an external (C++) holder
+        std::string holders;   // class names of those objects, comma separated
+    };
+
+    struct Hooks {
+        // ---- simulator ----
+        std::function<void(const runtime::QasmSimulator&, const SimEvent&)> simPre;
+        std::function<void(const runtime::QasmSimulator&, const SimEvent&)> simPost;
+        // Supplies the next uniform draw in [0,1); returns false to fall back to the RNG.
+        std::function<bool(double&)> draw;
+        // ---- evaluator ----
+        std::function<bool(std::uint64_t)> gcAt;  // force a collection at this boundary?
+        bool maskNaturalGc = false;               // ignore pressure/destroy requests
+        bool timerDisabled = false;               // timer thread never raises the flag
+        long timerPeriodUs = 0;                   // 0 = production 50 ms
+        std::function<void(const GcEvent&)> onGc;
+        std::function<void(const char* kind, const std::string& json)> onEvent;
+        // ---- per-process counters ----
+        std::atomic<std::uint64_t> boundary{0};
+        std::atomic<int> execCounter{0};
+        std::atomic<int> timerStarted{0};
+        std::atomic<int> timerExited{0};
+        std::atomic<std::uint64_t> timerRequests{0};
+        std::atomic<bool> lastRequestFromTimer{false};
+        int triggerCode = 0;  // interpreter thread only: 0 natural, 1 timer, 2 forced, 3 final
+        // ---- env-configured state (CLI runs) ----
+        bool seedSet = false;
+        std::uint64_t seed = 0;
+        long execBase = 0;
+        std::vector<double> scriptedDraws;
+        std::size_t drawPos = 0;
+        std::FILE* trace = nullptr;
+        int stateMode = 0;  // 0 none, 1 final only, 2 after every op (n <= 10)
+        int curExec = -1;
+
+        void emit(const char* kind, const std::string& body) {
+            if (onEvent)
+                onEvent(kind, body);
+            if (!trace)
+                return;
+            std::fprintf(trace, "{\"x\":%d,\"b\":%" PRIu64 ",\"k\":\"%s\"%s%s}\n", curExec,
+                         boundary.load(), kind, body.empty() ? "" : ",", body.c_str());
+            std::fflush(trace);
+        }
+    };
+
+    inline std::string jsonEscape(const std::string& s) {
+        std::string o;
+        for (unsigned char c : s) {
+            if (c == '"' || c == '\\') {
+                o.push_back('\\');
+                o.push_back(static_cast<char>(c));
+            } else if (c < 0x20 || c >= 0x7f) {
+                char buf[8];
+                std::snprintf(buf, sizeof buf, "\\u%04x", c);
+                o += buf;
+            } else
+                o.push_back(static_cast<char>(c));
+        }
+        return o;
+    }
+
+    inline std::string fmtDouble(double d) {
+        char buf[40];
+        std::snprintf(buf, sizeof buf, "%.17g", d);
+        if (std::strstr(buf, "nan") || std::strstr(buf, "inf"))
+            return std::string("\"") + buf + "\"";
+        return buf;
+    }
+
+    inline void configureFromEnv(Hooks& h) {
+        if (const char* s = std::getenv("BLOCH_VERIF_SEED")) {
+            h.seedSet = true;
+            h.seed = std::strtoull(s, nullptr, 10);
+        }
+        if (const char* s = std::getenv("BLOCH_VERIF_EXEC_BASE"))
+            h.execBase = std::strtol(s, nullptr, 10);
+        if (const char* s = std::getenv("BLOCH_VERIF_DRAWS")) {
+            std::ifstream in(s);
+            double d;
+            while (in >> d) h.scriptedDraws.push_back(d);
+            h.draw = [&h](double& r) {
+                if (h.drawPos < h.scriptedDraws.size()) {
+                    r = h.scriptedDraws[h.drawPos++];
+                    return true;
+                }
+                return false;
+            };
+        }
+        if (const char* s = std::getenv("BLOCH_VERIF_TRACE"))
+            h.trace = std::fopen(s, "w");
+        if (const char* s = std::getenv("BLOCH_VERIF_STATE"))
+            h.stateMode = std::strcmp(s, "all") == 0 ? 2 : 1;
+        if (const char* s = std::getenv("BLOCH_VERIF_GC_PERIOD_US"))
+            h.timerPeriodUs = std::strtol(s, nullptr, 10);
+        if (const char* s = std::getenv("BLOCH_VERIF_GC")) {
+            std::string spec(s);
+            bool natural = false;
+            auto plus = spec.find("+natural");
+            if (plus != std::string::npos) {
+                natural = true;
+                spec.erase(plus);
+            }
+            if (spec == "natural") {
+                // production behaviour
+            } else if (spec == "timer") {
+                // only the wall-clock timer, pressure/destroy requests still honoured
+            } else {
+                h.timerDisabled = true;
+                h.maskNaturalGc = !natural;
+                if (spec == "none") {
+                    h.gcAt = [](std::uint64_t) { return false; };
+                } else if (spec == "all") {
+                    h.gcAt = [](std::uint64_t) { return true; };
+                } else if (spec.rfind("set:", 0) == 0) {
+                    auto set = std::make_shared<std::vector<std::uint64_t>>();
+                    std::stringstream ss(spec.substr(4));
+                    std::string tok;
+                    while (std::getline(ss, tok, ','))
+                        if (!tok.empty())
+                            set->push_back(std::strtoull(tok.c_str(), nullptr, 10));
+                    h.gcAt = [set](std::uint64_t b) {
+                        for (auto v : *set)
+                            if (v == b)
+                                return true;
+                        return false;
+                    };
+                } else if (spec.rfind("rand:", 0) == 0) {
+                    std::uint64_t sd = 1;
+                    double p = 0.1;
+                    std::sscanf(spec.c_str() + 5, "%" SCNu64 ":%lf", &sd, &p);
+                    h.gcAt = [sd, p](std::uint64_t b) {
+                        std::uint64_t z = (b + 1) * 0x9E3779B97F4A7C15ull + sd * 0xBF58476D1CE4E5B9ull;
+                        z ^= z >> 30;
+                        z *= 0xBF58476D1CE4E5B9ull;
+                        z ^= z >> 27;
+                        z *= 0x94D049BB133111EBull;
+                        z ^= z >> 31;
+                        return (static_cast<double>(z >> 11) / 9007199254740992.0) < p;
+                    };
+                }
+            }
+        }
+    }
+
+    inline Hooks& hooks() {
+        static Hooks* h = [] {
+            auto* p = new Hooks();  // intentionally leaked: used during static destruction
+            configureFromEnv(*p);
+            return p;
+        }();
+        return *h;
+    }
+
+}  // namespace bloch::verif
+
+#endif  // BLOCH_VERIF
